@@ -107,13 +107,28 @@ func (criteria *SearchCriteria) And(other *SearchCriteria) {
 	}
 }
 
+// dateBefore reports whether the calendar date of t1 is earlier than the
+// calendar date of t2. The time of day and the timezone are ignored.
+func dateBefore(t1, t2 time.Time) bool {
+	y1, m1, d1 := t1.Date()
+	y2, m2, d2 := t2.Date()
+	switch {
+	case y1 != y2:
+		return y1 < y2
+	case m1 != m2:
+		return m1 < m2
+	default:
+		return d1 < d2
+	}
+}
+
 func intersectSince(t1, t2 time.Time) time.Time {
 	switch {
 	case t1.IsZero():
 		return t2
 	case t2.IsZero():
 		return t1
-	case t1.After(t2):
+	case dateBefore(t2, t1):
 		return t1
 	default:
 		return t2
@@ -126,7 +141,7 @@ func intersectBefore(t1, t2 time.Time) time.Time {
 		return t2
 	case t2.IsZero():
 		return t1
-	case t1.Before(t2):
+	case dateBefore(t1, t2):
 		return t1
 	default:
 		return t2
